@@ -343,6 +343,10 @@ func isUnsafePtr(t types.Type) bool {
 func (vc *VC) execMakeInterface(ins *ssa.MakeInterface) {
 	x := vc.val(ins.X)
 	tag := fmt.Sprint(vc.e.typeTag(ins.X.Type()))
+	if vc.tagTypes == nil {
+		vc.tagTypes = map[string]types.Type{}
+	}
+	vc.tagTypes[tag] = ins.X.Type()
 	h := vc.cur.heap
 	switch x.K {
 	case KPtr:
